@@ -1090,7 +1090,7 @@ Definition wnum_ok (w : nat) (x : wnum) : bool :=
   (length (wnum_text x) <? w)%nat &&
   match x with
   | WInt _ ds => all_digits ds && (length (wnum_text x) <? 19)%nat
-  | WSci _ d6 _ e2 => all_digits d6 && (length d6 =? 6)%nat && all_digits e2 && (length e2 =? 2)%nat
+  | WSci _ d6 _ e2 => all_digits d6 && (length d6 =? 6)%nat && all_digits e2      (* 2 or 3 exponent digits: E+00 .. E-100 *)
   | WFix _ ip fp => all_digits ip && forallb is_digit fp
   | WStr t => good_tok t && match classify t with KStr => true | _ => false end
   end.
